@@ -29,6 +29,13 @@ def skeleton(guard):
     return "%s => %s" % (">".join(names), allowed.strip())
 
 
+def guards_hold(recorded, current):
+    """every recorded condition is still among the current ones — literally, or after dropping the spelling of
+    arguments (a renamed loop variable changes `Lt(i,len)` into `Lt(idx,len)`)"""
+    need, have = set(recorded), set(current)
+    return need <= have or {skeleton(g) for g in need} <= {skeleton(g) for g in have}
+
+
 class Inventory:
     def __init__(self, F, table, prefix):
         self.F, self.table, self.prefix = F, table, prefix
@@ -62,11 +69,39 @@ class Inventory:
             out.add((up, None))
         return out
 
+    def _claimed(self, f):
+        """entries of f that some current site of f matches exactly (key and conditions)"""
+        key = ("claimed", f.path)
+        if key not in self._cur:
+            out = set()
+            d = FL.Defs(f)
+            for b, _kind, _det, _ln, k, _e in PN.sites_in(f):
+                full = self.prefix + f.path + "/" + k
+                ent = self.table.get(full)
+                if isinstance(ent, dict) and guards_hold(ent.get("guards", []), FL.guard_signature(self.F, f, b, d)):
+                    out.add(full)
+            self._cur[key] = out
+        return self._cur[key]
+
+    def renumbered(self, f, kind_detail, guards):
+        """an entry of the same function and kind whose ordinal no longer fits (a site was added or removed before it):
+        one that no current site claims exactly and whose recorded conditions hold here"""
+        base = self.prefix + f.path + "/" + kind_detail + "/"
+        claimed = self._claimed(f)
+        for k in sorted(self.table):
+            if k.startswith(base) and k not in claimed and k not in self.used and isinstance(self.table[k], dict):
+                if guards_hold(self.table[k].get("guards", []), guards) and self.table[k].get("guards"):
+                    self.used.add(k)
+                    return self.table[k]
+        return None
+
     def moved(self, f, b, kind_detail, guards):
         """(entry, where it was reviewed) for a site that moved here from a caller, or (None, None)"""
         by_caller = {}
         for cp, cb in self.callers(f.path):
             by_caller.setdefault(cp, []).append(cb)
+        # code may also move between a function and its own closures (an iterator chain rewritten as a loop)
+        by_caller.setdefault(_ALLCLOS.sub("", f.path), []).append(None)
         # one more level: the helper's own closures / a helper called from a helper
         for cp in list(by_caller):
             for cp2, cb2 in self.callers(cp):
@@ -97,4 +132,31 @@ class Inventory:
                 if need <= have or {skeleton(g) for g in need} <= {skeleton(g) for g in have}:
                     self.used.add(k)
                     return ent, cp
+        # the other direction: a helper was inlined into this function. Entries of a function that no longer exists and
+        # that this function used to call (per the fingerprints of the reviewed tree)
+        import json as _json, os as _os
+        if not hasattr(self, "_fp"):
+            fpp = _os.path.join(_os.path.dirname(_os.path.dirname(_os.path.abspath(__file__))), "rules", "fingerprints.json")
+            try:
+                with open(fpp) as fh:
+                    self._fp = _json.load(fh)
+            except Exception:  # noqa
+                self._fp = {}
+        root = _ALLCLOS.sub("", f.path)
+        old_callees = set((self._fp.get(root) or {}).get("callees", []))
+        for k in sorted(self.table):
+            if not isinstance(self.table[k], dict) or k in self.used or not k.startswith(self.prefix):
+                continue
+            m = re.match(re.escape(self.prefix) + r"(.+?)/" + re.escape(kind_detail) + r"/\d+$", k)
+            if not m:
+                continue
+            owner = _ALLCLOS.sub("", m.group(1))
+            if owner in self.F.fns or owner == root:
+                continue
+            if "::".join(owner.split("::")[-2:]) not in old_callees:
+                continue
+            need = set(self.table[k].get("guards", []))
+            if need <= set(guards) or {skeleton(g) for g in need} <= {skeleton(g) for g in guards}:
+                self.used.add(k)
+                return self.table[k], owner
         return None, None
